@@ -266,6 +266,9 @@ class SimSocket(socket.socket):
         self.calls = 0
         self.idle_calls = 0  # consecutive calls that neither transferred data nor were told to block
         self.sent_log: list[bytes] = []  # datagrams / writes as issued (for oracles)
+        # datagram send-buffer model (C20): None = always writable (default); an int = number of datagrams the socket
+        # still accepts; at 0 sendto raises BlockingIOError and the socket is not reported writable
+        self.dgram_send_room: int | None = None
         self.fault_plan: Callable[["SimSocket", str], Any] | None = None
         self.created_site = net.current_site
         self.world.sockets.append(self)
@@ -592,6 +595,12 @@ class SimSocket(socket.socket):
             raise _oserr(e, ConnectionRefusedError if e == errno.ECONNREFUSED else OSError)
         if self.sockname is None:
             self.net.bind(self, None)
+        if self.dgram_send_room is not None:
+            if self.dgram_send_room <= 0:
+                self.idle_calls = 0  # told to block: legitimate
+                self.world.log("eagain", self.label)
+                raise BlockingIOError(errno.EAGAIN, "sendto would block")
+            self.dgram_send_room -= 1
         self.sent_log.append(data)
         self._count(True)
         self.world.log("sendto", self.label, len(data))
@@ -626,7 +635,8 @@ class SimSocket(socket.socket):
         # datagram
         if self.dgram_q or self.so_error:
             ev |= EVENT_READ
-        ev |= EVENT_WRITE
+        if self.dgram_send_room is None or self.dgram_send_room > 0:
+            ev |= EVENT_WRITE
         return ev
 
 
